@@ -162,6 +162,8 @@ func (b BlockedThread) String() string {
 
 // Result is what one execution produced.
 type Result struct {
+	// Unverified: the explorer re-ran this schedule and got another execution (recorded as an infrastructure error)
+	Unverified bool
 	Choices    []Choice
 	Points     []Point
 	Status     Status
